@@ -1,6 +1,8 @@
 import Gnet.Driver.Ring
+import Gnet.Driver.LinkedList
 
 def main (args : List String) : IO UInt32 := do
   match args with
   | ["ring"] => Gnet.Driver.RingD.main; return 0
+  | ["linkedlist"] => Gnet.Driver.LLD.main; return 0
   | _ => IO.eprintln "usage: gnetmodel <component>"; return 2
